@@ -340,6 +340,7 @@ def run_case(desc):
         else:
             leftover = False
         nwrites = r.choice([1, 1, 2, 3])
+        rewrite_probes = 0
         twins = 0
         prev = None
         for w in range(nwrites):
@@ -406,6 +407,50 @@ def run_case(desc):
                     bad = f"concurrent read #{i} of one mounted store object (of {T} overlapping reads) returned {_short(res_[1])}, written {_short(value)}"
                 if bad:
                     break
+        if bad is None and mount == "direct" and not bare and desc["seed"] % 2 == 0:
+            # the stored value is REWRITTEN while somebody else looks (another worker's stale check, another process): between any two file
+            # operations of the rewrite a second store object on the same path must find a value stored - the old one or the new one
+            from vmon import fsfault
+
+            new_value = value
+            if kind == "text":
+                new_value = value + "!"
+            elif kind == "binary":
+                new_value = value + b"!"
+            elif kind == "json":
+                new_value = [value]
+            elif kind == "pickle":
+                new_value = (value,)
+            seen_between = []
+
+            def look(count, name):
+                other = make(path)
+                try:
+                    m_ = other.get_modified_time()
+                    g_ = other.read() if m_ is not None else None
+                except BaseException as e:  # noqa
+                    seen_between.append((count, name, "raised", repr(e)[:120]))
+                    return
+                if m_ is None:
+                    seen_between.append((count, name, "nothing-stored", None))
+                elif deep_eq(g_, value) or deep_eq(g_, new_value):
+                    seen_between.append((count, name, "ok", None))
+                else:
+                    seen_between.append((count, name, "other-value", _short(g_)))
+
+            fplan = fsfault.Plan()
+            fplan.probe = look
+            with fsfault.Shim(fplan, tmp):
+                store.write(new_value)
+            rewrite_probes = len(seen_between)
+            wrong = [s_ for s_ in seen_between if s_[2] != "ok"]
+            if wrong:
+                c_, n_, what_, x_ = wrong[0]
+                bad = (f"while the stored value was being rewritten (file operations {fplan.ops}), a second store object on the same path looked just before "
+                       f"operation {c_ + 1} ({n_}): {what_} {x_ or ''} - a value was stored all the time (the old one, then the new one)")
+            value = new_value
+            if bad is None and not deep_eq(store.read(), value):
+                bad = "read() after the observed rewrite returned a different value"
         if bad is None and mount == "direct" and desc["seed"] % 3 == 1:
             # the store's path is a symbolic link to the file that holds the value: the modified time is that of the VALUE (the link target),
             # whenever the link itself was made
@@ -517,7 +562,7 @@ def run_case(desc):
         dig = hashlib.sha1(pickle.dumps(value) if kind != "text" else value.encode("utf-8", "surrogatepass")).hexdigest()[:12]
     except Exception:
         dig = str(desc["seed"])
-    res = {"status": "ok", "counters": {"round_trips": 1, "mtime_sequences_across_second_boundary": int(mount == "direct"), "epoch_mtime_checks": int(mount == "direct"), "writes_over_foreign_content": int(mount == "direct" and desc["seed"] % 5 == 0), "writes_next_to_leftover_staging": int(mount == "direct" and desc["seed"] % 7 == 0), "unreachable_path_checks": int(mount == "direct" and desc["seed"] % 3 == 0),
+    res = {"status": "ok", "counters": {"round_trips": 1, "mtime_sequences_across_second_boundary": int(mount == "direct"), "epoch_mtime_checks": int(mount == "direct"), "looks_between_file_operations_of_a_rewrite": rewrite_probes, "writes_over_foreign_content": int(mount == "direct" and desc["seed"] % 5 == 0), "writes_next_to_leftover_staging": int(mount == "direct" and desc["seed"] % 7 == 0), "unreachable_path_checks": int(mount == "direct" and desc["seed"] % 3 == 0),
                                         "dst_fallback_mtime_sequences": int(mount == "direct" and desc["seed"] % 4 == 0), "concurrent_mounted_read_groups": int(mount != "direct"), f"kind_{kind}": 1, f"mount_{mount}": 1}, "sets": {"features": feats},
            "nontrivial": nontrivial, "sig": f"{kind}|{mount}|{pathkind}|{enc}|{dig}"}
     if desc["seed"] % 1500 == 0 or bad:
